@@ -1,0 +1,7 @@
+//go:build !verif
+
+package kzg
+
+import "github.com/consensys/gnark/frontend"
+
+func verifTrace(string, []frontend.Variable) {}
